@@ -301,7 +301,9 @@ def execute(scn, keep_log=False, hook=None):
             all_sent = any(rc.Id(cid).pf == rc.PF_TP_DT and d[0] == npk for (_t, cid, d) in tx_log['O'])
         if ok is True and not acked:
             stats['gave_up_sessions'] += 1
-            if not aborted and not all_sent and not aborts_from('O'):
+            # J1939-21: after its last data packet the originator waits for a CTS (re-request) or the acknowledgement, so giving up
+            # there is "stops waiting for a CTS" too; J1939-22 waits for the acknowledgement of its end-of-message status only
+            if not aborted and not (all_sent and fd) and not aborts_from('O'):
                 viol.append({'clause': 'no-abort-on-give-up', 'rank': 4, 'feat': {'mode': mode, 'side': 'O'},
                              'msg': 'originator stopped waiting for a CTS without sending a connection abort'})
     stats['abort3_frames'] = sum(1 for n in w.stacks for r in aborts_from(n) if r == 3)
